@@ -5,7 +5,8 @@ Driver for C20.  Names are hex-encoded byte strings (`-` = empty name is written
   `fields <allow|except> <names> <doc keys> <emptyDoc 0|1> <isObject 0|1>`
       -> `verbatim` | `ok <positions (in the stored document) of the surviving fields, in output order>`
   `pipe <pipes ;-separated: F:<except 0|1>:<names +-separated> | O>` -> `none` | `ok <allowList 0|1> <names>`
-  `parse <tokens ,-separated: u<hex>|q<hex>>` (the lexer tokens after a `|`; u = unquoted, q = quoted)
+  `parse <tokens ,-separated: <u|q><s|n><hex>>` (the lexer tokens after a `|`; u/q = unquoted/quoted, s/n = white
+      space skipped before the token or not; text = UTF-8 bytes)
       -> `err` | `ok <allowList 0|1> <names> rest=<number of tokens left>`        parser.parsePipeFields
 -/
 open SV SV.Proto SV.Fields
@@ -23,10 +24,18 @@ def parsePipe (s : String) : Option (Option (List (List Nat) × Bool)) :=
   | ["F", e, ns] => do pure (some ((← names? ns "+"), (← bool? e)))
   | _ => none
 
+def bytesToChars (bs : List Nat) : Option (List Char) :=
+  (String.fromUTF8? (ByteArray.mk (bs.map UInt8.ofNat).toArray)).map String.toList
+
+def charsToBytes (cs : List Char) : List Nat := (String.ofList cs).toUTF8.toList.map UInt8.toNat
+
+/-- token = `<u|q><s|n><hex of the UTF-8 text | e>`: unquoted / quoted, space skipped before it / not -/
 def parseTok (s : String) : Option Tok :=
   match s.toList with
-  | 'u' :: r => (name? (String.ofList r)).map fun bs => ⟨bs.map Char.ofNat, false⟩
-  | 'q' :: r => (name? (String.ofList r)).map fun bs => ⟨bs.map Char.ofNat, true⟩
+  | k :: sp :: r =>
+    if (k = 'u' ∨ k = 'q') ∧ (sp = 's' ∨ sp = 'n') then
+      (name? (String.ofList r)).bind fun bs => (bytesToChars bs).map fun cs => ⟨cs, k = 'q', sp = 's'⟩
+    else none
   | _ => none
 
 def step (line : String) : String :=
@@ -47,7 +56,7 @@ def step (line : String) : String :=
       match parsePipeFields toks with
       | none => "err"
       | some (except, names, rest) =>
-        s!"ok {fmtBool (!except)} {fmtList (fun (n : List Char) => fmtName (n.map Char.toNat)) names} rest={rest.length}"
+        s!"ok {fmtBool (!except)} {fmtList (fun (n : List Char) => fmtName (charsToBytes n)) names} rest={rest.length}"
     | none => "bad-op"
   | ["pipe", ps] =>
     match (splitList ps ";").mapM parsePipe with
